@@ -901,6 +901,8 @@ def _decide_return(pw, spec, paths):
 
 
 def check(run, fx, tier, floors=True):
+    import ignored
+    ignored.run_for(run, fx, 'C04', floors)
     if floors or fx.body("layout::ConditionTable::matches") is not None:
         t04_cond(run, fx)
     import speclayout
